@@ -133,6 +133,61 @@ def run_rule(chk, facts, spec):
     chk.floor("sort-then-check-unique constructor sites (grammar actions + derive)", found, 7)
 
     header_rule(chk, facts)
+    check_unique_rule(chk, facts)
+
+
+def check_unique_rule(chk, facts):
+    """utils::check_unique is the one place where "no two neighbours of the sorted list are equal" is decided: it has to compare *every*
+    adjacent pair — a running `prev` updated on every iteration, or windows(2) — not disjoint pairs (chunks), nor a strided subset"""
+    c = facts.crate("candid")
+    h = c.fn(r"^candid::utils::check_unique$")
+    chk.analysed(h["key"])
+    param = (h["params"][0] or {}).get("n")
+    loops = [m for m in nodes(h["body"], "match") if m.get("src") == "ForLoopDesugar" and (callee(m["scrut"]) or "").endswith("IntoIterator::into_iter")]
+    ok, why = False, "no loop over the sorted items found"
+    if loops:
+        src = m0 = loops[0]["scrut"]["args"][0]
+        chain = []
+        while isinstance(src, dict) and src.get("k") == "mcall":
+            chain.append(src["m"])
+            src = src["recv"]
+        rootp = expr_path(src)
+        bad_adaptors = [a for a in chain if a in ("chunks", "chunks_exact", "step_by", "skip", "take", "rchunks", "filter", "skip_while", "take_while")]
+        if rootp != param and not chain:
+            why = f"the loop runs over `{rootp}`, not over the sorted items `{param}`"
+        elif bad_adaptors:
+            why = f"the loop runs over {'.'.join(reversed(chain))}: {bad_adaptors} visits only some of the adjacent pairs"
+        elif "windows" in chain:
+            ok, why = True, "windows(2) over the sorted items"
+        else:
+            # running-prev idiom: `prev = Some(item)` is a statement of the loop body itself (every iteration), and item == prev is tested
+            inner = [m for m in nodes(loops[0], "match") if m.get("src") == "ForLoopDesugar" and m is not loops[0]]
+            body_arm = None
+            for mm in inner:
+                for a in mm["arms"]:
+                    if a["pat"].get("k") in ("ts", "struct") and a["body"].get("k") == "block":
+                        body_arm = a
+            if body_arm is None:
+                why = "loop body not found"
+            else:
+                item = [x.get("n") for x in walk(body_arm["pat"]) if x.get("k") == "bind"]
+                stmts = list(body_arm["body"].get("stmts") or []) + ([body_arm["body"]["e"]] if body_arm["body"].get("e") else [])
+                upd = []
+                for st in stmts:
+                    s0 = st.get("e") if st.get("k") == "semi" else st
+                    if isinstance(s0, dict) and s0.get("k") == "assign":
+                        rhs = [x for x in walk(s0["b"]) if x.get("k") == "path" and (x.get("res") or {}).get("kind") == "Local"]
+                        if any((x["res"]["path"] in item) for x in rhs):
+                            upd.append(expr_path(s0["a"]))
+                eqs = [x for x in walk(body_arm["body"]) if (x.get("k") == "bin" and x.get("op") in ("Eq", "Ne"))
+                       or (x.get("k") in ("call", "mcall") and re.search(r"PartialEq::(eq|ne)$", callee(x) or ""))]
+                ok = bool(upd) and bool(eqs)
+                why = f"running previous item `{upd}` updated on every iteration, {len(eqs)} equality test(s)" if ok else \
+                    f"no unconditional `prev = Some(item)` in the loop body (updates: {upd}) or no equality test ({len(eqs)})"
+    chk.expect(ok, "check_unique:every-adjacent-pair",
+               f"candid::utils::check_unique must compare every adjacent pair of the sorted sequence: {why}. Otherwise two equal ids / names at "
+               f"some positions are accepted (duplicate field ids, duplicate method names)", where=f"{h['span']['file']}:{h['span']['lo']}",
+               ok_detail=why)
 
 
 def header_rule(chk, facts):
